@@ -551,6 +551,16 @@ impl<TStdlib: Stdlib, TStdIn: Input, TStdOut: Printer, TLpt1: Printer>
                 self.take_last_error_address().with_err_at(&pos)?;
                 ctx.opt_next_index = Some(resume_label.address());
                 self.context.pop();
+                // the label is in the main module: the subprograms that were active
+                // when the error occurred are abandoned
+                self.context.pop_to_global();
+                self.return_address_stack.clear();
+                self.stacktrace.clear();
+                self.function_result.clear();
+                ctx.statement_stack_depths.truncate(1);
+                if let Some(Some(depths)) = ctx.statement_stack_depths.last() {
+                    self.restore_stack_depths(*depths);
+                }
             }
             Instruction::Throw(interpreter_error) => {
                 return Err(interpreter_error.clone()).with_err_at(&pos);
